@@ -110,6 +110,23 @@ def run(ctx: Ctx) -> Result:
                     ok, v = B.auth([w.bytes, lockc.bytes], cache)
                     res.note_case((root, tuple(seeds), 'window-of-link', j, what))
                     if ok: B.viol(f'chain of {n}: certificate {j} is {what}, all others are current', {'root_seed': root.hex(), 'chain_length': n, 'link': j, 'scripts': [w.bytes.hex(), lockc.bytes.hex()], 'cache': vmrun.cache_str(cache, False)}, False, v)
+        # "exactly a (certificate, signature) pair": a certificate blob with bytes appended (the locks split it at fixed offsets and
+        # never look at its length) is not the certificate the root signed
+        wg_ = T.make_delegate_key_chain_witness(seeds[-1], list(reversed(certs)), sf, flags).bytes
+        for j, c_ in enumerate(certs):
+            pk_ = c_.pack()
+            for extra in (b'\x00', b'\x01', b'\xff\xff', bytes(8)):
+                if G.push(pk_) not in wg_: continue
+                wl = wg_.replace(G.push(pk_), G.push(pk_ + extra))
+                res.note_case((root, tuple(seeds), 'cert-lengthened', j, extra))
+                ok, v = B.auth([wl, lockc.bytes], cache)
+                if ok: B.viol(f'chain lock accepts a chain whose certificate {j} has {len(extra)} byte(s) appended', {'root_seed': root.hex(), 'chain_length': n, 'scripts': [wl.hex(), lockc.bytes.hex()], 'cache': vmrun.cache_str(cache, False)}, False, v)
+                if n == 1:
+                    w1b = T.make_delegate_key_witness(seeds[0], certs[0], sf, flags).bytes
+                    if G.push(pk_) in w1b:
+                        w1l = w1b.replace(G.push(pk_), G.push(pk_ + extra))
+                        ok, v = B.auth([w1l, lock1.bytes], cache)
+                        if ok: B.viol(f'delegate-key lock accepts a certificate with {len(extra)} byte(s) appended', {'root_seed': root.hex(), 'scripts': [w1l.hex(), lock1.bytes.hex()], 'cache': vmrun.cache_str(cache, False)}, False, v)
         # the verifier's slack threshold passed for this run governs the checks inside the chain lock's recursive function like
         # it governs the single lock's (accept iff in window and (threshold <= 0 or t - now < threshold))
         wgood_ = T.make_delegate_key_chain_witness(seeds[-1], list(reversed(certs)), sf, flags)
